@@ -145,3 +145,23 @@ Example C04_example_callers_file_frozen :
   let s1 := last (map fst (trace (impl_step dec_header_canon FBf) ex_s0 (firstn 2 ex_fops))) ex_s0 in
   Forall (fun s' => ws_file s' = ws_file s1) (map fst (trace (impl_step dec_header_canon FBf) s1 (skipn 2 ex_fops))).
 Proof. cbn zeta. apply file_frozen. left. vm_compute. reflexivity. Qed.
+
+(* a Finalize that FAILS (carv2.WithoutIndex(): IndexCodec = CarIndexNone, store.Finalize cannot build the
+   index): the error is returned and the store is closed all the same, on both front-ends *)
+Definition ex_o_noidx : wopts := mkwopts 7 1 3145728 false 40 true false false false 33554432 8388608.
+Definition ex_nops : list sop :=
+  [OpPut ex_cA ex_data; OpFinalize; OpPut ex_cX ex_data; OpHas ex_cA; OpGet ex_cA; OpFinalize].
+
+Example C04_example_failed_finalize_closes :
+  (forall s, open_new (KStorage true) ex_o_noidx false ex_roots [] = Ok s ->
+     outs (trace (impl_step dec_header_canon (FSt true)) s ex_nops)
+     = [ONil; OErr EOther; OErr EClosed; OErr EClosed; OErr EClosed; OErr EOther] /\
+     ws_closed (fst (impl_step dec_header_canon (FSt true) (fst (impl_step dec_header_canon (FSt true) s (OpPut ex_cA ex_data))) OpFinalize)) = true) /\
+  (forall s, open_new KBlockstore ex_o_noidx false ex_roots [] = Ok s ->
+     outs (trace (impl_step dec_header_canon FBs) s ex_nops)
+     = [ONil; OErr EOther; OErr EClosed; OErr EClosed; OErr EClosed; OErr EOther]).
+Proof.
+  split; intros s H; vm_compute in H; apply Ok_inj in H; subst s.
+  - split; [vm_compute; reflexivity|apply finalize_closes].
+  - vm_compute. reflexivity.
+Qed.
